@@ -84,6 +84,11 @@ func rulesC03(c *Ctx) {
 	c.Floor("C03.table", len(tt.Values), 100)
 	assocC03(c)
 	parenC03(c, tt)
+	if rows, why := p.scanTable(); rows != nil {
+		spellingRule(c, "C03.spelling", rows, tt)
+	} else {
+		c.Unk("C03.spelling", "Scanner.Scan", 0, why)
+	}
 }
 
 // parenC03: parentheses become explicit nodes, and regex operators take a
